@@ -1,0 +1,31 @@
+//go:build verif
+
+package routing
+
+import "lunar/engine/streams"
+
+// Exporting shims for the external verification harness (property C14, suite
+// "reload"): the flows-mode load / reload path of the manager, callable from
+// outside the package. No behaviour of their own. Add-only, compiled only
+// with -tags verif.
+
+// VerifC14NewStreamsManager returns a HandlingDataManager in streams mode that
+// has not loaded a stream yet (what Setup() has before its first
+// initializeStreams call), without the syslog writer, doctor and telemetry.
+func VerifC14NewStreamsManager() *HandlingDataManager {
+	rd := &HandlingDataManager{} //nolint:exhaustruct
+	rd.isStreamsEnabled = true
+	return rd
+}
+
+// VerifC14InitializeStreams is initializeStreams: the first load made by
+// Setup() and every later reload (/load_flows, /apply_flows and /configuration
+// reach it through reloadFlows).
+func (rd *HandlingDataManager) VerifC14InitializeStreams() error {
+	return rd.initializeStreams()
+}
+
+// VerifC14Stream is getStream: the stream that currently serves transactions.
+func (rd *HandlingDataManager) VerifC14Stream() *streams.Stream {
+	return rd.getStream()
+}
